@@ -260,7 +260,8 @@ Proof.
   { destruct (gexists_at sid st GE) as (k & n & A). apply (at_gexists sid k _ n). rewrite EN. unfold D.
     rewrite at_filter_gid. apply N.eqb_neq in NE. rewrite NE. exact A. }
   assert (st' = map_gid sid (set_gid cbm) (delete_graph cbm st)) as ST.
-  { unfold rollback in E. rewrite GE' in E. cbn [negb] in E. unfold rehome in E. rewrite GE' in E. inversion E; reflexivity. }
+  { unfold rollback in E. rewrite (rollback_gen_live _ cbm sid st GE GE') in E. unfold rehome in E. rewrite GE' in E.
+    inversion E; reflexivity. }
   assert (s_nodes st' = map (rh cbm sid) D) as ES by (rewrite ST; unfold map_gid; simpl; rewrite EN; reflexivity).
   assert (s_edges st' = s_edges (delete_graph cbm st)) as EE by (rewrite ST; reflexivity).
   assert (s_next st' = s_next st) as EX' by (rewrite ST; simpl; exact EX).
